@@ -3,10 +3,12 @@
 # build cache (plain, purego, race std) so that checks rebuild quickly.
 set -e
 export GOFLAGS=-mod=mod GOPROXY=off GOSUMDB=off GOTOOLCHAIN=local
-cd /verif/sim
-mkdir -p /verif/bin /verif/evidence /verif/replays
-go build -o /verif/bin/verif ./cmd/verif
-if [ -d ./cmd/instrument ]; then go build -o /verif/bin/instrument ./cmd/instrument; fi
+H=${VERIF_HOME:-/verif}
+cd "$H/sim"
+mkdir -p "$H/bin" "$H/evidence" "$H/replays"
+go build -o "$H/bin/verif" ./cmd/verif
+go build -o "$H/bin/instrument" ./cmd/instrument
+go build -o "$H/bin/mutgen" ./cmd/mutgen
 # warm caches (outputs discarded)
 t=$(mktemp -d)
 go build -o "$t/a" ./cmd/edsim
